@@ -93,7 +93,7 @@ def run(ctx: Ctx):
     def args_fn(rng, ast):
         return list(rng.choice(OPTION_ROWS))
 
-    pool, st1 = work.generated_pool(rng, n_gen, args_fn=args_fn)
+    pool, st1 = work.generated_pool(rng, n_gen, profile={"w": {"hook": 16}}, args_fn=args_fn)
     ypool, st2 = work.generated_pool(rng, n_yield, profile={"yields": True, "w": {"yield_": 10}},
                                      args_fn=lambda rng, ast: rng.choice([[], ["-O3"], ["-O0"], ["-O2", "-fzero-len-input-support"]]))
     entries = []   # (label, src, args, Result, seeds, ast)
@@ -123,7 +123,7 @@ def run(ctx: Ctx):
             if not r2.ok:
                 continue
             p = cdrv.Prog(r2, meta={"label": label, "src": src, "args": args})
-            ins, reps, L = work.inputs_for(r2, rng, ast, nwalk=10 if quick else 30, enum_budget=60 if quick else 400, seeds=seeds)
+            ins, reps, L = work.inputs_for(r2, rng, ast, nwalk=30 if quick else 60, enum_budget=60 if quick else 400, seeds=seeds)
             p.meta["inputs"] = ins
             p.meta["L"] = L
             progs.append(p)
@@ -135,10 +135,10 @@ def run(ctx: Ctx):
         for p in batch.live:
             zl = p.zero_len
             ins = p.meta["inputs"]
-            if quick and len(ins) > 90:
+            if quick and len(ins) > 110:
                 short = [x for x in ins if len(x) <= 3]
                 rest = [x for x in ins if len(x) > 3]
-                ins = short[:40] + rng.sample(rest, min(len(rest), 50))
+                ins = short[:35] + rng.sample(rest, min(len(rest), 75))
             for ii, bs in enumerate(ins):
                 n = len(bs)
                 rid0 = "%s.%d.r" % (p.name, ii)
